@@ -111,7 +111,7 @@ def run(ctx):
     rej = pc.validate(ctx, recs[:narrow], TRACE_CFG, "C09", max_reject=5)
     rej_w = pc.validate(ctx, recs[narrow:], TRACE_CFG_WIDE, "C09 (limit 64)", max_reject=4)
     rej += [(i + narrow, s, info) for i, s, info in rej_w]
-    pc.report(ctx, recs, rej)
+    pc.report(ctx, recs, rej, TRACE_CFG, cfg_wide=TRACE_CFG_WIDE)
     st = pc.steering_stats(ctx, recs)
 
     # ---- part (ii): PipelineTransport / lazy dial
